@@ -254,6 +254,30 @@ impl Handler {
         // of the handler's context must reach it
         let recver = store.read(options.clone()).await;
 
+        // The handler was registered by the frame `self.id`, but only now starts to listen. A
+        // `<name>.register` or `<name>.unregister` that was appended in between is history to a
+        // tail subscription: it would never learn that it has been replaced or unregistered and
+        // would stay active next to its replacement. Look for such a frame (the subscription
+        // above is already in place, so nothing can slip through) and stand down if there is one
+        if options.tail {
+            let register_topic = format!("{}.register", &self.topic);
+            let unregister_topic = format!("{}.unregister", &self.topic);
+            let superseded = store
+                .read_sync(Some(&self.id), None, Some(self.context_id))
+                .find(|frame| frame.topic == register_topic || frame.topic == unregister_topic);
+            if let Some(frame) = superseded {
+                let _ = store.append(
+                    Frame::builder(format!("{}.unregistered", &self.topic), self.context_id)
+                        .meta(serde_json::json!({
+                            "handler_id": self.id.to_string(),
+                            "frame_id": frame.id.to_string(),
+                        }))
+                        .build(),
+                );
+                return Ok(());
+            }
+        }
+
         {
             let store = store.clone();
             let mut handler = self.clone();
